@@ -5,12 +5,15 @@ Proved: the executable classification used as the oracle is exactly the RELRAD r
 of the tripped network is "sectioning only" iff a path of lines outside the faulted section (or
 healthy backup lines) joins it to the feed, "until repair" iff no such path exists, and load
 points of other networks are unaffected; the sectioning phase lasts exactly the passes `k` with
-`k·dt < T` (i.e. ⌈T/dt⌉ passes).  That the implementation's trace realises this classification
-is decided per contingency by the check (exhaustively up to the stated bound), not proved.
+`k·dt < T` (i.e. ⌈T/dt⌉ passes).  Proved on the switching model for every reachable state (any number of faults, manual and
+ICT-based control): outages are confined to the faulted sections, their boundary switches and
+open breakers (`outage_confined`, from the invariant G).  That the implementation's recorded
+durations realise the classification is decided per contingency by the check (exhaustively up to the stated bound).
 -/
 import Relsad.Model.Relrad
 import Relsad.Lemmas.GraphL
 import Relsad.Props.C06
+import Relsad.Lemmas.ControlOpenL
 
 namespace Relsad.C07
 open Relsad.Graph Relsad.Relrad Relation
@@ -46,5 +49,119 @@ lasts ⌈T/dt⌉ steps. -/
 theorem sectioning_passes (T dt : ℚ) (hdt : 0 < dt) (k : ℕ) :
     ((fun t => Relsad.Control.tick t dt)^[k]) T ≤ 0 ↔ T ≤ (k : ℚ) * dt :=
   C06.timer_out_iff T dt hdt k
+
+/-! ### the isolated zone on the switching model (all reachable states, any number of faults, any control mode) -/
+
+open Relsad.Control in
+/-- **Outages are confined to faulted sections and their boundary switches.**  At every reachable state of every
+well-formed configuration (any history of faults, repairs, manual and ICT-based increments): a line that is out of
+service carries an open breaker, or lies in — or carries a disconnector listed by — a section that is out of service
+and contains a failed line.  Every other line is in service; so a load point whose path to the feed avoids the
+faulted sections, their boundary switches and open breakers is supplied as soon as the breakers are reclosed (with
+`sectioningOnly_iff_path`: it is interrupted for the sectioning time only). -/
+theorem outage_confined (C : Cfg) (hC : wfB C = true) (hC2 : wfB2 C = true) (s : St) (hs : C05.ReachA C s)
+    (l : Nat) (hl : l < C.lines.length) (hout : gb s.conn l = false) :
+    BrOpen C s l ∨ ∃ k, k < C.secs.length ∧ gb s.secConn k = false ∧ HasFailed C s k ∧
+      (l ∈ (secOf C k).lines ∨ ∃ d ∈ (lineOf C l).discons, Sw.discon d ∈ (secOf C k).switches ∧ gb s.dOpen d = true) := by
+  have w := WF.of_wfB C hC
+  have w2 := WF2.of_wfB2 C hC2
+  have q := C06.reachA_quad C w w2 s hs
+  -- an out-of-service section contains a failed line (check flags are down at every reachable state)
+  have faulted : ∀ k, k < C.secs.length → gb s.secConn k = false → HasFailed C s k := by
+    intro k hk hko
+    obtain ⟨n, hn, hkn⟩ := w2.sec_owned k hk
+    rcases q.triple.both.inv2.why n hn k hkn hko with h | h
+    · exact h
+    · rw [C06.reach_check_down C s hs n hn] at h; exact absurd h (by simp)
+  have own : gb s.secConn (lineOf C l).sec = false →
+      ∃ k, k < C.secs.length ∧ gb s.secConn k = false ∧ HasFailed C s k ∧
+        (l ∈ (secOf C k).lines ∨ ∃ d ∈ (lineOf C l).discons, Sw.discon d ∈ (secOf C k).switches ∧ gb s.dOpen d = true) :=
+    fun h => ⟨_, w.line_sec_lt l hl, h, faulted _ (w.line_sec_lt l hl) h, Or.inl (w.line_mem_sec l hl)⟩
+  rcases q.g.line l hl hout with h1 | h1 | ⟨d, hd, hdo⟩
+  · exact Or.inr (own h1)
+  · exact Or.inl h1
+  · have hdl := w.line_discons l hl d hd
+    rcases q.g.discon d hdl.1 hdo with h2 | h2 | ⟨k, hk, hsw, hko⟩
+    · rw [hdl.2] at h2; exact Or.inr (own h2)
+    · rw [hdl.2] at h2; exact Or.inl h2
+    · exact Or.inr ⟨k, hk, hko, faulted k hk hko, Or.inr ⟨d, hd, hsw, hdo⟩⟩
+
+open Relsad.Control in
+/-- … in particular, once every line is repaired and every breaker reclosed nothing is out of service (no load point
+stays interrupted beyond the repair). -/
+theorem nothing_out_without_fault (C : Cfg) (hC : wfB C = true) (hC2 : wfB2 C = true) (s : St) (hs : C05.ReachA C s)
+    (hrep : ∀ l, gb s.failed l = false) (hcb : ∀ c, c < C.cbLine.length → gb s.cbOpen c = false)
+    (l : Nat) (hl : l < C.lines.length) : gb s.conn l = true := by
+  cases hx : gb s.conn l
+  · exfalso
+    have w2 := WF2.of_wfB2 C hC2
+    rcases outage_confined C hC hC2 s hs l hl hx with ⟨c, hc, ho⟩ | ⟨k, _, _, ⟨l', _, hf⟩, _⟩
+    · rw [hcb c (w2.line_cb l hl c hc).1] at ho; exact absurd ho (by simp)
+    · rw [hrep l'] at hf; exact absurd hf (by simp)
+  · rfl
+
+/-! ### how long a breaker stays open (all reachable states, manual and ICT-based control) -/
+
+open Relsad.Control in
+/-- **After every increment a breaker is open only for a reason**: the sectioning time of its network still runs, or
+the section of the breaker's own line contains a failed line (the fault cannot be isolated from the feed), or the
+network is a SURVIVAL microgrid whose distribution network still has a failed line.  So a load point that can still be
+fed is interrupted for the sectioning time only (`sectioning_passes`: ⌈T/dt⌉ passes), every history, every
+well-formed configuration. -/
+theorem breaker_open_only_while (C : Cfg) (hC : wfB C = true) (s : St) (hs : C05.ReachA C s) (dt : ℚ)
+    (n : Nat) (hn : n < C.nets.length) (hopen : gb (step C s dt).cbOpen (netOf C n).cb = true) :
+    OpenReason C (step C s dt) n := by
+  have w := WF.of_wfB C hC
+  have b := C06.reach_both C w s hs
+  revert hopen
+  unfold Relsad.Control.step
+  simp only []
+  have b1 : Both C ((List.range C.lines.length).foldl (fun s l => lineUpdate C s l dt) s) :=
+    both_foldl _ _ (fun l => l < C.lines.length) (fun l hl => List.mem_range.mp hl)
+      (fun s' l hl h' => ⟨h'.inv.lineUpdate l dt, h'.inv2.afterUpdate w h'.inv.sz l hl dt⟩) _ b
+  obtain ⟨b2, own2, _, _⟩ := phase_open w (fun s n => distLoop C s n dt) (fun s' m hm h' => h'.distLoop w m hm dt)
+    (fun s' m hm h' => distLoop_open w s' h' m hm dt) ((List.range C.nets.length).filter (fun n => !isMg C n))
+    (fun m hm => List.mem_range.mp (List.mem_filter.mp hm).1) _ b1
+  obtain ⟨_, own3, keep3, _⟩ := phase_open w (fun s n => mgLoop C s n dt) (fun s' m hm h' => h'.mgLoop w m hm dt)
+    (fun s' m hm h' => mgLoop_open w s' h' m hm dt) ((List.range C.nets.length).filter (fun n => isMg C n))
+    (fun m hm => List.mem_range.mp (List.mem_filter.mp hm).1) _ b2
+  cases hmg : isMg C n
+  · exact keep3 n hn (own2 n (List.mem_filter.mpr ⟨List.mem_range.mpr hn, by rw [hmg]; rfl⟩))
+  · exact own3 n (List.mem_filter.mpr ⟨List.mem_range.mpr hn, hmg⟩)
+
+open Relsad.Control in
+/-- the same under ICT-based control, whatever the controllers can reach -/
+theorem breaker_open_only_while_auto (C : Cfg) (hC : wfB C = true) (s : St) (hs : C05.ReachA C s) (dt : ℚ) (cm : Comm)
+    (n : Nat) (hn : n < C.nets.length) (hopen : gb (stepA C s dt cm).cbOpen (netOf C n).cb = true) :
+    OpenReason C (stepA C s dt cm) n := by
+  have w := WF.of_wfB C hC
+  have b := C06.reach_both C w s hs
+  revert hopen
+  unfold Relsad.Control.stepA
+  simp only []
+  have b1 : Both C ((List.range C.lines.length).foldl (fun s l => lineUpdate C s l dt) s) :=
+    both_foldl _ _ (fun l => l < C.lines.length) (fun l hl => List.mem_range.mp hl)
+      (fun s' l hl h' => ⟨h'.inv.lineUpdate l dt, h'.inv2.afterUpdate w h'.inv.sz l hl dt⟩) _ b
+  obtain ⟨b2, own2, _, _⟩ := phase_open w (fun s n => distLoopA C s n dt cm) (fun s' m hm h' => h'.distLoopA w m hm dt cm)
+    (fun s' m hm h' => distLoopA_open w s' h' m hm dt cm) ((List.range C.nets.length).filter (fun n => !isMg C n))
+    (fun m hm => List.mem_range.mp (List.mem_filter.mp hm).1) _ b1
+  obtain ⟨_, own3, keep3, _⟩ := phase_open w (fun s n => mgLoopA C s n dt cm) (fun s' m hm h' => h'.mgLoopA w m hm dt cm)
+    (fun s' m hm h' => mgLoopA_open w s' h' m hm dt cm) ((List.range C.nets.length).filter (fun n => isMg C n))
+    (fun m hm => List.mem_range.mp (List.mem_filter.mp hm).1) _ b2
+  cases hmg : isMg C n
+  · exact keep3 n hn (own2 n (List.mem_filter.mpr ⟨List.mem_range.mpr hn, by rw [hmg]; rfl⟩))
+  · exact own3 n (List.mem_filter.mpr ⟨List.mem_range.mpr hn, hmg⟩)
+
+open Relsad.Control in
+/-- Non-vacuity: on the two-section feeder a fault on L1 (behind the disconnector): after the first pass the breaker is
+open because the sectioning time runs; after the second pass the breaker is closed again although L1 is still failed. -/
+example :
+    let C : Cfg := { lines := [⟨0, some 0, [], 0⟩, ⟨0, none, [0], 1⟩], disconLine := [1], cbLine := [0],
+                     secs := [⟨[0], [.breaker 0, .discon 0]⟩, ⟨[1], [.discon 0]⟩], nets := [⟨0, 0, [0, 1], [0, 1], [], none, none⟩], T := 1 }
+    let s1 := step C (lineFail C (St.init C) 1 2) 1
+    let s2 := step C s1 1
+    gb s1.cbOpen 0 = true ∧ gr s1.timer 0 = 1 ∧ gb s2.cbOpen 0 = false ∧ gb s2.failed 1 = true ∧ s2.conn = [true, false] := by
+  intro C s1 s2
+  exact ⟨by decide +kernel, by decide +kernel, by decide +kernel, by decide +kernel, by decide +kernel⟩
 
 end Relsad.C07
